@@ -916,6 +916,110 @@ def r02_4_keys(ctx):
     r.done()
 
 
+def _deep_arm(f: Fn, r, arm: str, pred: str, obj: str, typ: str, container: str, parts: List[Tuple[str, str, bool]]):
+    """One container arm of Constructor.__type_matches.  `parts` = [(what, index into generic_type_args, recursive?)]: every
+    element (key/value/item) must be checked - recursively where `recursive` - before the arm can answer True."""
+    region = [n for n in f.walk() if isinstance(n, (ast.Return,)) and any(
+        p and isinstance(g, ast.Call) and call_name(g) == pred for g, p in f.guards(n))]
+    key = f.key('deep-check:%s' % arm)
+    if not region:
+        r.fail(key, f.loc(), '__type_matches has no arm for generic %s types: a constructed %s is accepted without looking at its '
+               'elements' % (arm, container))
+        return
+    trues = [x for x in region if x.value is not None and not (isinstance(x.value, ast.Constant) and x.value.value is False)]
+    ok = bool(trues)
+    why = 'no accepting return'
+    for ret in trues:
+        v = ret.value
+        # form A: return isinstance(obj, K) and all(self.__type_matches(x, args[i]) for x in obj)
+        txt = norm(v)
+        if not (isinstance(v, ast.Constant) and v.value is True):
+            need = ['isinstance(%s, %s)' % (obj, container)] + ['all(']
+            good = all(t in txt for t in need) and isinstance(v, ast.BoolOp) and isinstance(v.op, ast.And)
+            for what, idx, rec in parts:
+                if rec and 'generic_type_args(%s)[%d]' % (typ, idx) not in txt:
+                    good = False
+            if not good:
+                ok, why = False, 'the %s arm answers `%s`' % (arm, txt[:70])
+            continue
+        # form B: loops with `return False` on a failing element, `return True` after them
+        if not known_instance(f.guards(ret), obj, {container}):
+            ok, why = False, 'the %s arm can answer True for an object that is not a %s' % (arm, container)
+            continue
+        loops = [n for n in f.walk() if isinstance(n, ast.For) and f.alpha.text(n.iter) in (obj, '%s.items()' % obj, '%s.values()' % obj, '%s.keys()' % obj)
+                 and any(p and isinstance(gg, ast.Call) and call_name(gg) == pred for gg, p in f.guards(n.iter))
+                 and f.cfg.dominates(f.nid(n.iter), f.nid(ret)) and not any(x is n for x in _ancestors_list(ret))]
+        if not loops:
+            ok, why = False, 'the %s arm answers True without a loop over the elements of %s' % (arm, obj)
+            continue
+        for what, idx, rec in parts:
+            found = False
+            for lo in loops:
+                for x in ast.walk(lo):
+                    if isinstance(x, ast.Return) and isinstance(x.value, ast.Constant) and x.value.value is False:
+                        for a, p in f.guards(x):
+                            t = f.alpha.text(a)
+                            if not p and 'generic_type_args(%s)[%d]' % (typ, idx) in t and (
+                                    ('__type_matches(' in t) if rec else ('isinstance(' in t or '__type_matches(' in t)) \
+                                    and '<each:' in t:
+                                found = True
+                if any(isinstance(x, (ast.Break, ast.Continue)) for x in ast.walk(lo)) or any(
+                        isinstance(x, ast.Return) and not (isinstance(x.value, ast.Constant) and x.value.value is False)
+                        for x in ast.walk(lo)):
+                    found = False
+            if not found:
+                ok, why = False, 'the %s arm does not reject a %s whose %s fails the check against generic_type_args(%s)[%d]' % (
+                    arm, container, what, typ, idx)
+    r.check(ok, '__type_matches, %s arm: every %s is checked before the arm answers True' % (arm, '/'.join(w for w, _, _ in parts)),
+            key, f.loc(trues[0]) if trues else f.loc(), why + ': with an alias shared by two differently typed attributes the second '
+            'retag wins and __init__ receives elements of the other type')
+
+
+def r01_6_deep_recheck(ctx, rid='R01.6'):
+    P = ctx.P
+    r = ctx.rule(rid, 'what PyYAML constructed is re-checked against the annotations, element by element, on every path to __init__ '
+                      '(the last line of defence when an alias makes two differently typed positions share one node)', floor=4)
+    f = fn(P, CTOR + '__call__')
+    cls = P.cls('yatiml.constructors:Constructor')
+    checkers = set()
+    for name, m in cls.methods.items():
+        g = fn(P, m.key)
+        if name in ('__call__', '__type_matches'):
+            continue
+        tm = [c for c in g.calls('__type_matches') if g.live(c)]
+        if tm and any(raise_class(x) == 'RecognitionError' and any('__type_matches(' in norm(a) and not p for a, p in g.guards(x))
+                      for x in g.raises()):
+            checkers.add(name)
+    r.check(bool(checkers), 'methods that reject an attribute failing __type_matches: %s' % sorted(checkers),
+            'yatiml.constructors:Constructor:type-checkers', 'yatiml/constructors.py',
+            'no method of Constructor rejects a constructed attribute that fails __type_matches')
+    inits = [c for c in f.calls('__init__') if f.live(c)]
+    through = {f.nid(c) for name in checkers for c in f.calls(name) if f.live(c)}
+    for c in inits:
+        r.check(bool(through) and f.cfg.must_pass(f.cfg.entry, f.nid(c), through), '%s is preceded by the attribute type check on every path'
+                % norm(c)[:40], f.key('init-without-type-check'), f.loc(c), '__init__ can be reached without the constructed '
+                'attributes having been checked against the annotations')
+    tm = fn(P, CTOR + '__type_matches')
+    obj, typ = tm.fi.params[1], tm.fi.params[2]
+    _deep_arm(tm, r, 'sequence', 'is_generic_sequence', obj, typ, 'list', [('item', 0, True)])
+    _deep_arm(tm, r, 'mapping', 'is_generic_mapping', obj, typ, 'dict', [('key', 0, False), ('value', 1, True)])
+    # union arm: True only through a member that matches
+    ur = [n for n in tm.returns() if any(p and isinstance(g, ast.Call) and call_name(g) == 'is_generic_union' for g, p in tm.guards(n))]
+    okU = bool(ur)
+    for ret in ur:
+        v = ret.value
+        if isinstance(v, ast.Constant) and v.value is True:
+            if not any(p and '__type_matches(' in norm(a) for a, p in tm.guards(ret)):
+                okU = False
+        elif isinstance(v, ast.Constant) and v.value is False:
+            pass
+        elif not ('any(' in norm(v) and '__type_matches(' in norm(v)):
+            okU = False
+    r.check(okU, '__type_matches, union arm: True only under a member that matches', tm.key('deep-check:union'), tm.loc(),
+            'the union arm of __type_matches answers True without a matching member')
+    r.done()
+
+
 def r02_5_kinds(ctx):
     P = ctx.P
     r = ctx.rule('R02.5', 'lists and dicts are admitted by exact YAML kind (SequenceNode/MappingNode, plain seq/map tag)',
@@ -1875,6 +1979,19 @@ def handler_converts(f: Fn, h: ast.ExceptHandler) -> Tuple[bool, str]:
             v = verdict(e)
             if not v or v[0] != 'EMPTY':
                 return False, 'handler returns %s' % norm(e)
+    # the handler itself must not fail on the way: format strings are literals, e.args[k] is read under `if e.args`
+    for st in h.body:
+        for n in ast.walk(st):
+            if isinstance(n, ast.Call) and isinstance(n.func, ast.Attribute) and n.func.attr == 'format':
+                recv = n.func.value
+                srcs = assigned_from(f, recv.id) if isinstance(recv, ast.Name) else [recv]
+                if not srcs or any(const_str(x) is None for x in srcs):
+                    return False, 'the handler formats with a format string built at run time (%s): a brace in the caught ' \
+                                  'message makes format() raise inside the handler' % norm(recv)[:50]
+            if isinstance(n, ast.Subscript) and isinstance(n.slice, ast.Constant) and isinstance(n.value, ast.Attribute) \
+                    and n.value.attr == 'args' and isinstance(n.ctx, ast.Load):
+                if not any(norm(g) == norm(n.value) and p for g, p in f.guards(n)):
+                    return False, 'the handler reads %s without `if %s`' % (norm(n), norm(n.value))
     return True, 'ok'
 
 
